@@ -87,6 +87,7 @@ func orderedCallsDeep(c *Ctx, rule string, fn *ssa.Function, names []string, ms 
 
 func C12(c *Ctx) {
 	c.Note("equality of contents after reopen; expiry metadata; that replayed memtables equal the closed ones")
+	oracleSeedNoWrapGroup(c, "K5.oracle-seed-does-not-wrap")
 	flushNeverSkippedGroup(c, "K11.failed-flush-never-skipped")
 	vlogRewindGroup(c, "K2.vlog-append-failure-rewound")
 	internalKeysHiddenGroup(c, "K2.internal-keys-hidden")
